@@ -42,6 +42,24 @@ def seeds_table(logdir='/tmp'):
         rows.append('| %s | %s | %s | %s |' % (sid, summ, res, via))
     return '\n'.join(rows)
 
+def neutral_table():
+    rows = ['| refactoring | what it changes (author\'s note, shortened) | property: result of `./check` on the refactored tree |', '|---|---|---|']
+    for d in sorted(glob.glob(os.path.join(V, 'neutral', '*-n*'))):
+        nid = os.path.basename(d)
+        try: why = re.sub(r'\s+', ' ', open(os.path.join(d, 'why_behaviour_is_identical.txt')).read())[:200].replace('|', '/')
+        except Exception: why = ''
+        cells = []
+        for f in sorted(glob.glob(os.path.join(d, 'last_check_*.txt'))):
+            prop = os.path.basename(f)[len('last_check_'):-4]; t = open(f).read()
+            ex = re.search(r'exit=(\d+)', t); nb = t.count('BOUNDED '); nu = t.count('UNDECIDED '); nv = t.count('VIOLATION ')
+            if nv: r = '**VIOLATION (false alarm)**'
+            elif ex and ex.group(1) == '0': r = 'holds' + (' (%d bounded stand-in%s)' % (nb, 's' if nb > 1 else '') if nb else ' (all proofs)')
+            elif ex and ex.group(1) == '2': r = 'undecided (exit 2, %d proof%s)' % (nu, 's' if nu > 1 else '')
+            else: r = 'not run'
+            cells.append('%s: %s' % (prop, r))
+        rows.append('| %s | %s | %s |' % (nid, why, '; '.join(cells) or 'not run'))
+    return '\n'.join(rows)
+
 def splice(text, name, body):
     a = '<!-- BEGIN GENERATED %s -->' % name; b = '<!-- END GENERATED %s -->' % name
     i = text.index(a) + len(a); j = text.index(b)
@@ -51,5 +69,6 @@ if __name__ == '__main__':
     p = os.path.join(V, 'DESIGN.md'); s = open(p).read()
     s = splice(s, 'status', status_table())
     s = splice(s, 'seeds', seeds_table(sys.argv[1] if len(sys.argv) > 1 else '/tmp'))
+    if 'BEGIN GENERATED neutral' in s: s = splice(s, 'neutral', neutral_table())
     open(p, 'w').write(s)
     print('DESIGN.md tables regenerated')
